@@ -108,7 +108,23 @@ def run(ctx):
     # ------------------------------------------------------------ play_unchecked
     ctx.rule("play_unchecked")
     body = f.need(B + "::play_unchecked")
-    se = sym.SymExec(f, body, inline=lambda n: False if n in W else None, max_paths=100000)
+    # private helpers that carry a loop (a scan moved into a function of its own) are read as part of play_unchecked
+    from .common import reachable_bodies
+    from .. import cfg as cfgmod
+
+    def loop_helpers(root_key):
+        out = set()
+        for k in reachable_bodies(f, [root_key], stop=lambda n: n in W):
+            hb = f.bodies[k]
+            if k == root_key or hb.kind not in ("Fn", "AssocFn") or not hb.crate.startswith("cozy_chess") or hb.promoted is not None:
+                continue
+            if f.fns.get(k, {}).get("pub") or k in W:
+                continue
+            if cfgmod.natural_loops(hb):
+                out.add(k)
+        return out
+    play_helpers = loop_helpers(body.key)
+    se = sym.SymExec(f, body, inline=lambda n: False if n in W else (True if n in play_helpers else None), max_paths=100000)
     paths = se.run()
     ctx.saw("%s: %d paths" % (body.key, len(paths)))
     where = loc(body)
@@ -121,8 +137,6 @@ def run(ctx):
     if ctx.check(len(scans) == 1, "play:one-scan", "play_unchecked does not contain exactly one slider scan (%d)" % len(scans), where):
         sc = scans[0]
         ca, pa = scan.check_scan(ctx, "play", body, sc, where)
-        ctx.check(ca == "*self." + chk_f and pa == "*self." + pin_f, "play:accumulators",
-                  "the scan does not accumulate into the board's checkers/pinned fields (%s, %s)" % (ca, pa), where)
         ctx.check(sc.owner == NSTM and sc.K == ("king", SELF, NSTM), "play:owner",
                   "the scan does not examine the king of the side that moves next (the mover's opponent): %s" % (sym.show(sc.K)[:80] if sc.K else None), where,
                   sample={"scan": "play_unchecked", "king": "king(!mover)", "attackers": "colors(mover) & ..."})
@@ -133,20 +147,56 @@ def run(ctx):
     pawn_term = AND(("pawnatt", Kn, NSTM), ("bbof", mvto))
     n = 0
     seen_cases = set()
+    sc0 = scans[0] if len(scans) == 1 else None
+    ca0, pa0 = (ca, pa) if sc0 is not None else (None, None)
+
+    def acc_at_head(p_, acc):
+        """value of accumulator `acc` when path p_ reached the scan loop"""
+        for k_, snap_ in p_.pre_loop.items():
+            if sc0 is None or scan.loop_fn(snap_, body) != sc0.frame_fn:
+                continue
+            for (nm_, path_), v_ in snap_.items():
+                full = nm_ + "".join("." + h_[1] for h_ in path_)
+                if v_ is not None and v_[0] == "tuple":
+                    for i_, x_ in enumerate(v_[1]):
+                        if "%s.%d" % (full, i_) == acc:
+                            return x_
+                if full == acc:
+                    return v_
+        return None
+
+    def final_split(p_, field, acc):
+        """the board field at return, split into (the scan's contribution present?, everything else OR-ed together with the
+        accumulator's value before the scan)"""
+        fin = sym.Ops(f).field(p_.store[("P", "self")], field)
+        parts = scan.flatten(L.lift(fin))
+        hvs = [x for x in parts if x[0] == "hv"]
+        rest = [x for x in parts if x[0] != "hv"]
+        if len(hvs) != 1 or hvs[0][2] != acc or hvs[0][3] not in sc0.loop_heads:
+            return False, None
+        init = acc_at_head(p_, acc)
+        if init is None:
+            return False, None
+        rest.append(L.lift(init))
+        got = rest[0]
+        for x in rest[1:]:
+            got = ("or", got, x)
+        return True, got
     for p in rets:
-        snaps = [s for k, s in p.pre_loop.items() if k[0] == 0]
+        if sc0 is None or ca0 is None or pa0 is None:
+            break
+        snaps = [s for k, s in p.pre_loop.items() if scan.loop_fn(s, body) == sc0.frame_fn]
         if len(snaps) != 1:
             ctx.fail("play:scan-on-every-path", "a path of play_unchecked returns without running the slider scan", where)
             continue
-        snap = snaps[0]
-        pre_c = snap.get(("*self", (("f", chk_f),)))
-        pre_p = snap.get(("*self", (("f", pin_f),)))
-        if pre_c is None or pre_p is None:
-            ctx.fail("play:pre-scan-values", "cannot read the checkers/pinned values before the scan", where)
+        okc_, pre_c = final_split(p, chk_f, ca0)
+        okp_, pre_p = final_split(p, pin_f, pa0)
+        if not (okc_ and okp_):
+            ctx.fail("play:pre-scan-values", "the board's checkers/pinned at return are not `what was there before the scan | the scan's result`", where)
             continue
-        pre_c, pre_p = L.lift(pre_c), L.lift(pre_p)
         # ordering: writers before the scan are placement/rights/ep; after the scan only the side toggle
-        writer_events = [(e.idx, e.name.rsplit("::", 1)[-1], e) for e in p.events if e.kind == "call" and e.depth == 0 and e.name in W]
+        # (writer calls made directly or inside a private helper read as part of play_unchecked)
+        writer_events = [(e.idx, e.name.rsplit("::", 1)[-1], e) for e in p.events if e.kind == "call" and e.name in W]
         scan_idx = min([e.idx for e in p.events if e.kind == "call" and e.name.endswith("Iterator>::next")] or [10 ** 9])
         after = [nm for i, nm, e in writer_events if i > scan_idx]
         before_toggle = [nm for i, nm, e in writer_events if i < scan_idx and not e.args[1:]]
@@ -252,7 +302,12 @@ def run(ctx):
         ctx.saw("%s: %d paths" % (cb.key, len(cps)))
         nok = 0
         for p in cps:
-            if p.end != "return" or p.ret is None or not ((p.ret[0] == "agg" and p.ret[2] in ("Ok", "Some")) or p.ret in (sym.TRUE, ("tuple", ()))):
+            if p.end != "return" or p.ret is None:
+                continue
+            if g.is_stage(cname):
+                if not g.path_succeeds(cname, p)[0]:
+                    continue        # (a stage may also hand back the verdict of its last validator)
+            elif not ((p.ret[0] == "agg" and p.ret[2] in ("Ok", "Some")) or p.ret in (sym.TRUE, ("tuple", ()))):
                 continue
             calls = [e for e in p.events if e.kind == "call" and e.depth == 0 and e.name == defn.key]
             own = []
